@@ -22,7 +22,7 @@ SPEC = {
              "(hash of recipe or ladder parameters) that contain at least one loop or conditional."),
     "assumptions": ["documented minimum versions per construct (vlib/recipes.min_version)", "recipes from vlib/recipes.Gen are typed and definitely assigned by construction"],
     "min_evaluations": {"quick": 8000, "thorough": 80000},
-    "must_reach": ["emitted", "pt_error", "skeleton_main", "skeleton_sub", "placement_main", "placement_sub", "degenerate", "random_wellformed", "catalogue", "ladder", "constants"],
+    "must_reach": ["emitted", "pt_error", "skeleton_main", "skeleton_sub", "placement_main", "placement_sub", "placement_illformed", "router", "degenerate", "random_wellformed", "catalogue", "ladder", "constants"],
     "shard_timeout": {"quick": 2400, "thorough": 14400},
 }
 
@@ -239,17 +239,27 @@ def run_shard(shard):
             nl, nc = c17.count_slots(sk)
             if nl < 2:
                 continue
-            for leaves in itertools.product(["S0", "L0", "N"], repeat=nl):
-                if "L0" not in leaves or "S0" not in leaves:
+            alphabet = ["S0", "L0", "N"] if nl > 3 else ["S0", "L0", "S1", "L1", "N"]
+            for leaves in itertools.product(alphabet, repeat=nl):
+                if not any(x.startswith("L") for x in leaves) or not any(x.startswith("S") for x in leaves):
                     continue
                 idx += 1
                 if idx % N != S:
                     continue
+                two = any(x in ("S1", "L1") for x in leaves)
                 body, nctr = c17.place(sk, [c17.LEAF[x] for x in leaves], [c17.cond_expr("C", "app")] * nc, "app")
                 for where in ("main", "sub"):
-                    r = c17.make_recipe(body, nctr, "app", where, False)
+                    r = c17.make_recipe(body, nctr, "app", where, two)
                     an = defassign.Analysis(r)
-                    if an.run() or an.has_dead_code:
+                    flagged = an.run()
+                    if flagged:
+                        # ill-formed (a read before any write on some path): whatever the compiler says, it says it with one of its
+                        # own error types - also when several offending loads, or one load with several histories, are found
+                        vv = [4, 6, 8, 10][(idx // N) % 4]
+                        case = {"kind": "placement_illformed", "where": where, "recipe": r, "version": vv, "mode": "app", "opts": [False, None]}
+                        outcome(acc, "placement_illformed", case, compile_fn(pt, lambda r=r: build.build(r), "app", vv, False, None), wellformed=False)
+                        continue
+                    if an.has_dead_code:
                         acc.counters["placement_not_wellformed"] += 1
                         continue
                     vv = [4, 6, 8, 10][(idx // N) % 4]
@@ -258,6 +268,17 @@ def run_shard(shard):
                         fp = None
                     case = {"kind": "placement", "where": where, "recipe": r, "version": vv, "mode": "app", "opts": [ss, fp]}
                     outcome(acc, "placement_" + where, case, compile_fn(pt, lambda r=r: build.build(r), "app", vv, ss, fp), wellformed=True)
+    # ---- (1c) routers around the 15-argument boundary
+    k = 0
+    for nargs in (0, 1, 14, 15, 16, 17, 20):
+        for void in (True, False):
+            for v in (6, 7, 8, 9, 10):
+                for fp in (None, False) if v >= 8 else (None,):
+                    for ntxn in (0, 1):
+                        k += 1
+                        if k % N != S:
+                            continue
+                        router_totality(pt, acc, {"kind": "router", "nargs": nargs, "void": void, "version": v, "fp": fp, "ntxn": ntxn})
     # ---- (2) degenerate shapes
     for k, r in enumerate(degenerate_shapes()):
         if k % N != S:
@@ -335,9 +356,38 @@ def run_shard(shard):
     return acc.result()
 
 
+def router_totality(pt, acc, c):
+    """Router.compile_program over method arities around the 15-argument packing boundary, void and value-returning, under both
+    conventions: TEAL or a PyTeal error."""
+    n, void, v, fp, ntxn = c["nargs"], c["void"], c["version"], c["fp"], c.get("ntxn", 0)
+
+    def fn():
+        kinds = [pt.abi.Uint64, pt.abi.String, pt.abi.Bool, pt.abi.Uint8, pt.abi.Address]
+        names = ["a%d" % i for i in range(n)] + ["t%d" % i for i in range(ntxn)]
+        src = "def m(%s):\n    return %s\n" % (", ".join(names + ([] if void else ["*", "output"])),
+                                                  "output.set(%s)" % ("a0.get()" if n else "pt.Int(7)") if not void else "pt.Log(pt.Bytes('v'))")
+        ns = {"pt": pt}
+        exec(src, ns)
+        f = ns["m"]
+        f.__annotations__ = {("a%d" % i): kinds[i % len(kinds)] if i else pt.abi.Uint64 for i in range(n)}
+        f.__annotations__.update({("t%d" % i): pt.abi.PaymentTransaction for i in range(ntxn)})
+        if not void:
+            f.__annotations__["output"] = pt.abi.Uint64
+        r = pt.Router("t", pt.BareCallActions(no_op=pt.OnCompleteAction.create_only(pt.Approve())), clear_state=pt.Approve())
+        r.add_method_handler(pt.ABIReturnSubroutine(f))
+        opt = None if fp is None else pt.OptimizeOptions(frame_pointers=fp)
+        return r.compile_program(version=v, optimize=opt)[0]
+    outcome(acc, "router", c, fn)
+
+
 def replay(pt, acc, c):
     from .. import build, opcatalog
-    if c.get("kind") in ("skeleton", "degenerate", "random", "placement"):
+    if c.get("kind") == "placement_illformed":
+        ss, fp = c.get("opts", [None, None])
+        outcome(acc, "replay", c, compile_fn(pt, lambda: build.build(c["recipe"]), c["mode"], c["version"], ss, fp), wellformed=False)
+    elif c.get("kind") == "router":
+        router_totality(pt, acc, c)
+    elif c.get("kind") in ("skeleton", "degenerate", "random", "placement"):
         ss, fp = c.get("opts", [None, None])
         outcome(acc, "replay", c, compile_fn(pt, lambda: build.build(c["recipe"]), c["mode"], c["version"], ss, fp), wellformed=True)
     elif c.get("kind") == "catalogue":
